@@ -27,6 +27,9 @@ pub enum Mode {
     FollowIter { head: bool, cap: usize },
     /// ExecutionEngine::execute(line, ExecutionConfig::default()) for every line in `engine_lines`
     Engine,
+    /// no query at all: a 16-entry std HashMap is filled on the SUT thread and its iteration order
+    /// delivered (measures whether two key blocks really give different hash orders)
+    HashProbe,
 }
 
 #[derive(Clone, Debug)]
@@ -212,6 +215,15 @@ fn setup(spec: &WorldSpec) -> Result<(Tables, Statement), String> {
 
 fn drive(spec: &WorldSpec, running: Arc<AtomicBool>) -> DriverOut {
     let mut out = DriverOut { status: Status::Ok, total_lines: 0, total_result_rows: 0 };
+    if spec.mode == Mode::HashProbe {
+        let mut m = std::collections::HashMap::new();
+        for i in 0..16u8 {
+            m.insert(i, i);
+        }
+        let order: Vec<u8> = m.keys().cloned().collect();
+        seam::with_world(|w| w.on_deliver(&order));
+        return out;
+    }
     let (tables, statement) = match setup(spec) {
         Ok(x) => x,
         Err(err) => {
@@ -298,6 +310,7 @@ fn drive(spec: &WorldSpec, running: Arc<AtomicBool>) -> DriverOut {
                     seam::with_world(|w| w.on_deliver(item.as_bytes()));
                 }
             }
+            Mode::HashProbe => {}
             Mode::Engine => {
                 let mut engine = ExecutionEngine::new(&tables, &statement);
                 if engine.is_join() {
@@ -475,4 +488,30 @@ fn empty_result(status: Status, hard: bool, hung: bool) -> WorldResult {
         getrandom_calls: 0,
         enoent: 0,
     }
+}
+
+/// Process-global lazily initialised state of the SUT (the parser's keyword / function tables are
+/// `lazy_static` HashMaps) is created by whichever thread parses first, and creating a HashMap advances
+/// that thread's RandomState counter. To keep a world's result a function of its spec alone - and not
+/// of whether it happens to be the first world of its process - every harness process runs these
+/// throw-away worlds first.
+pub fn warm_up() {
+    let defs = "CREATE TABLE t(line = 'k=([a-z]+) n=(-?[0-9]+)', line[1] => k TEXT, line[2] => n INT NOT NULL, line[1], line[2] => arr TEXT[], line[2], line[2], line[2] => d TIMESTAMP); CREATE TABLE u(line = split ';', line[1] => k TEXT TRIM, line[2] => m INT DEFAULT 3, { .a.b[0] } => j REAL);";
+    let statements = [
+        "SELECT upper(k) AS u, n + 1, arr[1], EXTRACT(YEAR FROM d), CASE WHEN n > 1 THEN 'x' ELSE 'y' END, n::REAL, least(n, 2), regex_matches(k, 'a') FROM t WHERE n > 0 AND k IN ('a', 'b') OR NOT n IS NULL",
+        "SELECT k, COUNT(*) AS c, MAX(n), SUM(n) * 2, COUNT(DISTINCT n), PERCENTILE(n, 0.5), STRING_AGG(k, ','), ARRAY_AGG(n), BOOL_AND(n > 1), STDDEV(n), VARIANCE(n), AVG(n), MIN(k) FROM t GROUP BY k HAVING SUM(n) > 0 AND k != 'q' LIMIT 5",
+        "SELECT DISTINCT * FROM t OUTER JOIN u::'/simfs/warm_joined.log' ON t.k = u.k",
+        "SELECT date_trunc('day', d), make_timestamp(2020, 1, 2, 3, 4, 5, 6), now() FROM t::'/simfs/main0.log'",
+    ];
+    for stmt in statements {
+        let mut spec = WorldSpec::new(defs, stmt, Mode::Batch);
+        spec.files.push(("/simfs/main0.log".to_owned(), b"k=a n=1\nk=b n=2\nnoise\n".to_vec()));
+        spec.extra_files.push(("/simfs/warm_joined.log".to_owned(), b"a;1\nb;2\n".to_vec()));
+        let _ = run_world(&spec);
+    }
+    let mut spec = WorldSpec::new(defs, "SELECT k, COUNT(*) FROM t GROUP BY k", Mode::FollowExec { head: true });
+    spec.files.push(("/simfs/follow.log".to_owned(), b"k=a n=1\n".to_vec()));
+    spec.end_after_idle = Some(1);
+    let _ = run_world(&spec);
+    let _ = sqlgrep::parsing::completion_words();
 }
